@@ -19,7 +19,7 @@ PUBOs, QUSOs, PUSOs, etc.
 
 """
 
-import numpy as np
+from math import prod
 
 
 __all__ = 'subgraph', 'subvalue'
@@ -86,7 +86,7 @@ def subgraph(G, nodes, connections=None):
             continue
         key = tuple(filter(lambda x: x in nodes, k))
         not_key = filter(lambda x: x not in nodes, k)
-        value = v * np.prod([connections.get(i, 0) for i in not_key])
+        value = v * prod([connections.get(i, 0) for i in not_key])
         value += D.get(key, 0)
         if value:
             D[key] = value
@@ -132,7 +132,7 @@ def subvalue(values, G):
             raise ValueError("Keys must be tuples")
         key = tuple(filter(lambda x: x not in values, k))
         not_key = filter(lambda x: x in values, k)
-        value = v * np.prod([values[i] for i in not_key])
+        value = v * prod([values[i] for i in not_key])
         value += D.get(key, 0)
         if value:
             D[key] = value
